@@ -23,7 +23,7 @@ does not complete while the misbehaving peers are open but completes once they a
 runs of the same round - is reported as blocked; a connection the service closes although none of its own requests \
 ends a connection is reported as disturbed. After the rounds, on fresh servers: 3 simultaneous connections, 1.3-11 s \
 without traffic, then again 3 simultaneous connections of which two sit idle (a pool that shrinks must not strand the third). Non-trivial: at least 2 clients whose lifetimes overlap \
-(measured) and at least one misbehaving peer; distinct by round.";
+(measured) and at least one misbehaving peer; distinct by round. Peers that vanish in the middle of a message, as many as the server has workers (1..3), then a newcomer: it is answered, and with every client gone listen() returns after the stop flag (each judged by repetition).";
 
 #[derive(Clone, Debug)]
 pub struct Client {
@@ -402,6 +402,13 @@ fn replay(ctx: &mut Ctx, v: &Value) {
                 break;
             }
         }
+    } else if let Some(m) = v["case"]["gone_peers"].as_u64() {
+        for _ in 0..3 {
+            if let Err(f) = gone_peers(m as usize) {
+                res = Err(f);
+                break;
+            }
+        }
     } else if let Some(k) = v["case"]["burst_hold"].as_u64() {
         for _ in 0..20 {
             if let Err(f) = burst_hold(k as usize) {
@@ -594,6 +601,72 @@ fn burst_hold(k: usize) -> Result<bool, Fail> {
     Ok(false)
 }
 
+/// Stop a server without staking the run on it: a worker that never returns would make listen() wait for
+/// ever. Returns None when listen() had not returned after `patience` (its thread is left behind).
+fn stop_bounded(server: Server, patience: Duration) -> Option<Result<(), String>> {
+    let (tx, rx) = std::sync::mpsc::channel();
+    std::thread::spawn(move || {
+        let _ = tx.send(server.stop());
+    });
+    rx.recv_timeout(patience).ok()
+}
+
+/// `max` peers each send the beginning of a message and disappear; then a newcomer calls. Nothing is
+/// alive beside the newcomer, so it is served. Returns (answered, listen() returned after the stop flag).
+fn gone_peers_round(max: usize) -> (bool, bool) {
+    use std::io::Write;
+    let scratch = Scratch::new("c13g");
+    let a = scratch.unix_addr("g.sock");
+    let server = Server::start(t_service().0, &a, 1, max, 0);
+    let path = a.trim_start_matches("unix:").to_string();
+    let prefixes: [&[u8]; 4] = [
+        b"{\"method\":\"org.verif.test.Echo\",\"parameters\":{\"token\":\"gone",
+        b"{\"method\":\"org.varlink.service.GetInfo\"}",
+        b"{",
+        b" \t\r\n",
+    ];
+    for k in 0..max {
+        if let Ok(mut c) = std::os::unix::net::UnixStream::connect(&path) {
+            let _ = c.write_all(prefixes[k % prefixes.len()]);
+            let _ = c.flush();
+            std::thread::sleep(Duration::from_millis(20));
+            drop(c);
+        }
+    }
+    std::thread::sleep(Duration::from_millis(150));
+    let mut answered = false;
+    if let Ok(mut p) = Peer::connect(&a) {
+        p.send(&encode(&json!({"method": "org.verif.test.Echo", "parameters": {"token": "newcomer", "n": 1}}), Style::Compact));
+        answered = matches!(p.wait_finals(1, Duration::from_secs(5)), Wait::Reached);
+    }
+    let returned = stop_bounded(server, Duration::from_secs(8)).is_some();
+    (answered, returned)
+}
+
+/// Ok(true): served; Ok(false): one unexplained stall; Err: the pattern repeated.
+fn gone_peers(max: usize) -> Result<bool, Fail> {
+    let (a1, r1) = gone_peers_round(max);
+    if a1 && r1 {
+        return Ok(true);
+    }
+    for _ in 0..3 {
+        let (a2, r2) = gone_peers_round(max);
+        if !a1 && !a2 {
+            return Err(Fail::new(
+                "listen/blocked-by-other-connection",
+                format!("server with at most {} workers: {} peers sent the beginning of a message and disconnected; a newcomer 150 ms later got no answer within 5 s (twice) although no other connection was alive", max, max),
+            ));
+        }
+        if !r1 && !r2 {
+            return Err(Fail::new(
+                "listen/worker-kept-by-a-connection-that-is-gone",
+                format!("server with at most {} workers: {} peers sent the beginning of a message and disconnected; with every client gone and the stop flag set listen() had not returned after 8 s (twice): a worker is still occupied by a connection that no longer exists", max, max),
+            ));
+        }
+    }
+    Ok(false)
+}
+
 pub fn run(args: &Args) -> ! {
     // the servers run inside this process: a hostile input that takes the process down must be
     // attributed to its round, so the rounds run in a journaling child
@@ -669,6 +742,25 @@ pub fn run(args: &Args) -> ! {
             }
         }
     }
+    // peers that vanish in the middle of a message, as many as there are workers; then a newcomer
+    for (r, max) in [1usize, 2, 3, 2].iter().cycle().take(ctx.tier.pick(4, 40)).enumerate() {
+        if ctx.failed() {
+            break;
+        }
+        ctx.class("peers-gone-mid-message-then-a-newcomer");
+        journal.borrow_mut().note(&json!({"gone_peers": max}));
+        match gone_peers(*max) {
+            Ok(true) => ctx.case(Some(hash64(&("gone", r, max)))),
+            Ok(false) => {
+                ctx.case(None);
+                hung.set(hung.get() + 1);
+            }
+            Err(f) => {
+                ctx.case(None);
+                ctx.violation(&f.key, &f.what, "c13-gone", json!({"gone_peers": max}));
+            }
+        }
+    }
     // bursts of connections that all stay open
     let bursts = ctx.tier.pick(20, 400);
     for r in 0..bursts {
@@ -714,7 +806,16 @@ pub fn run(args: &Args) -> ! {
         ctx.inconclusive(&format!("{} rounds stalled without the blocked-until-closed pattern", hung.get()));
     }
     for sv in s.servers {
-        if let Err(e) = sv.stop() {
+        let stopped = match stop_bounded(sv, Duration::from_secs(15)) {
+            Some(r) => r,
+            None => {
+                if !ctx.failed() {
+                    ctx.inconclusive("listen() had not returned 15 s after the stop flag with every client gone");
+                }
+                continue;
+            }
+        };
+        if let Err(e) = stopped {
             if e.contains("panicked") {
                 ctx.violation("listen/worker-panic", "the listen() thread pool panicked", "c13-round", json!({"note": "pool join failed"}));
             }
